@@ -9,7 +9,7 @@ from persim import images_kernels as IK
 
 from ..core import Clause
 from ..oracles import bvn
-from ..strategies import finite
+from ..strategies import dict_of, finite
 
 RULE = ("Covariances (var_x, var_y from 1e-10 .. 1e4, correlation r from a mixture: uniform(-0.999,0.999), values at and within "
         "1e-3 / 1e-9 of the branch thresholds +-0.3, +-0.75, +-0.925, and |r| = 1 - 10^-k) and evaluation points given as standardised "
@@ -236,7 +236,7 @@ def check_norm_cdf(case, ctx):
     ctx.require(np.all(np.abs(v - want) <= 1e-15 + 1e-13 * want), "norm_cdf", lambda: "norm_cdf %r vs %r at %r" % (v, want, x))
 
 
-s_norm = st.fixed_dictionaries({"x": st.lists(st.one_of(finite(-40, 40), finite(-8, 8), st.sampled_from([0.0, -37.5, 8.3, 1e3, -1e3])), min_size=1, max_size=8)})
+s_norm = dict_of({"x": st.lists(st.one_of(finite(-40, 40), finite(-8, 8), st.sampled_from([0.0, -37.5, 8.3, 1e3, -1e3])), min_size=1, max_size=8)})
 
 
 @st.composite
